@@ -816,8 +816,9 @@ def switches_on_value_of(fn, call, through=None):
             if r["k"] == "call" and r["call"].bb == call.bb:
                 path = [e.split(":")[2] for e in r["proj"] if e.startswith("d:") and len(e.split(":")) > 2]
                 # nesting depth of the tested value inside the call's result: downcasts, plus the `?`s the value came through
-                depth = len(path) + len([e for e in r.get("trail", []) if e.startswith("d:") and e.endswith("Continue")])
-                out.append({"site": site, "info": info, "path": path, "proj": r["proj"], "depth": depth})
+                # the path continued through the `?`s / wrappers the value came through (Continue stands for Ok)
+                sem = list(path) + [("Ok" if e.endswith("Continue") else e.split(":")[2]) for e in r.get("trail", []) if e.startswith("d:") and len(e.split(":")) > 2]
+                out.append({"site": site, "info": info, "path": path, "proj": r["proj"], "depth": len(sem), "sem_path": sem})
                 break
     return out
 
@@ -861,9 +862,45 @@ def nested_variant_edge(fn, call, path):
         if edge is not None:
             cand = [s for s in cand if fn.edge_dominates(edge, s["site"])]
         if not cand:
-            return None
+            return _nested_variant_edge_through_try(fn, call, path)
         s = cand[0]
         edge = (s["site"].bb, s["info"]["edges"][path[depth]])
+    return edge
+
+
+def _nested_variant_edge_through_try(fn, call, path):
+    """the same when some layer of the value is decided by `?` instead of a match: `x.await?` decides Ok / Err of that layer
+    (Continue = Ok / Some, Break = Err / None), and what is matched afterwards is the Ok payload"""
+    decisions = []      # (semantic prefix, {variant: target block}, site)
+    for s in switches_on_value_of(fn, call, through=globals()["THROUGH_TRY"]):
+        decisions.append((list(s.get("sem_path", s["path"])), dict(s["info"]["edges"]), s["site"]))
+    for c in fn.calls():
+        if not c.matches(r"ops::Try(>)?::branch$") or c.target is None:
+            continue
+        for r in fn.origins(c.args[0], through=globals()["THROUGH_TRY"]):
+            if r["k"] == "call" and r["call"].bb == call.bb:
+                pth = [e.split(":")[2] for e in r.get("proj", []) if e.startswith("d:") and len(e.split(":")) > 2]
+                pth += [("Ok" if e.endswith("Continue") else e.split(":")[2]) for e in r.get("trail", []) if e.startswith("d:") and len(e.split(":")) > 2]
+                t = fn.term(c.target)
+                if t["k"] == "switch":
+                    info = fn.switch_info(fn.term_site(c.target))
+                    edges = {}
+                    if "Continue" in info["edges"]:
+                        edges["Ok"] = edges["Some"] = info["edges"]["Continue"]
+                    if "Break" in info["edges"]:
+                        edges["Err"] = edges["None"] = info["edges"]["Break"]
+                    decisions.append((pth, edges, fn.term_site(c.target)))
+                break
+    edge = None
+    for depth in range(len(path)):
+        want_prefix = path[:depth]
+        cand = [d for d in decisions if d[0] == want_prefix and path[depth] in d[1]]
+        if edge is not None:
+            cand = [d for d in cand if fn.edge_dominates(edge, d[2])]
+        if not cand:
+            return None
+        d = cand[0]
+        edge = (d[2].bb, d[1][path[depth]])
     return edge
 
 
@@ -881,7 +918,7 @@ def try_branches_on(fn, poll_call):
         if not any(r["k"] == "call" and r["call"].bb == poll_call.bb for r in roots):
             continue
         # how deep inside the value the tested Result sits: Ready(Ok(x))? tests depth 2, the `?` after it depth 3, ..
-        depth = min(len([e for e in r.get("proj", []) if e.startswith("d:")]) + len([e for e in r.get("trail", []) if e.startswith("d:") and e.endswith("Continue")])
+        depth = min(len([e for e in r.get("proj", []) if e.startswith("d:")]) + len([e for e in r.get("trail", []) if e.startswith("d:")])
                     for r in roots if r["k"] == "call" and r["call"].bb == poll_call.bb)
         t = fn.term(c.target) if c.target is not None else None
         ce = be = None
